@@ -148,6 +148,9 @@ def draw_leg(rng, errs, pts, start, cont=False):
     if cont and rng.random() < 0.10:
         # continuation that ignores the error: tol = 0 and a (usually larger) point budget
         leg = {'tol': rng.choice([0, 0.0]), 'min': 1, 'max': pts[rng.randrange(min(start, n - 1), n)] - rng.choice([0, 1])}
+    elif rng.random() < 0.06:
+        # a tolerance that is simply small (or large) in absolute terms, whatever the magnitudes of the problem are
+        leg = {'tol': 2.0 ** rng.choice([-60, -40, -30, -27, -20, -10, 10]), 'min': 1, 'max': pts[m] - rng.choice([0, 1])}
     elif r < 0.12:
         leg = {'tol': -1.0, 'min': 1, 'max': pts[j]}                 # points == max does not stop
     elif r < 0.24:
@@ -209,3 +212,37 @@ def draw_history(rng, errs, pts, nlegs=None, force_max=False):
         legs.append(leg)
         pos = k
     return legs
+
+
+# ---------------------------------------------------------------------------------------------- magnitudes
+
+SCALES = [-60, -40, -30, -27, -20, -10, 0, 0, 0, 0, 0, 10, 30]
+
+
+def scale_comps(rng, comps):
+    """integrand components across magnitudes: every coefficient of component i is multiplied by 2**k_i (dyadic: all values stay exact);
+    the components share one scale or mix scales. Returns (scaled comps, [k_i])."""
+    if rng.random() < 0.45:
+        ks = [0] * len(comps)
+    elif rng.random() < 0.55:
+        ks = [rng.choice(SCALES)] * len(comps)
+    else:
+        ks = [rng.choice(SCALES) for _ in comps]
+    return [[[c * 2.0 ** k, e] for c, e in terms] for terms, k in zip(comps, ks)], ks
+
+
+def magnitude(case):
+    """a bound for the size of the result components (sum of |coefficient| * sup|monomial| * volume): the scale rounding is relative to"""
+    vol = 1.0
+    for aa, bb in zip(case['a'], case['b']):
+        vol *= (bb - aa)
+    out = 0.0
+    for terms in case['comps']:
+        m = 0.0
+        for c, e in terms:
+            t = abs(float(c))
+            for aa, bb, ee in zip(case['a'], case['b'], e):
+                t *= max(abs(aa), abs(bb), 1) ** ee
+            m += t
+        out = max(out, m * vol)
+    return out
